@@ -4,7 +4,7 @@ from . import common as C
 MANIFEST = dict(
    technique="Lean 4 proof (toJS transcribed from jsonschema/to.go is a validity-preserving homomorphism from the gozod schema fragment to Draft 2020-12 keywords, on an explicit decidable Representable fragment) + differential correspondence: model document = real ToJSONSchema output, model verdicts = real Parse verdicts, and an independent validator (kaptinlin/jsonschema) judging the real document on the same instances",
    text="c07_equiv_partial / c07_sound / c07_complete: for every Representable schema and every in-scope JSON instance, the instance validates against the emitted document iff Parse accepts it (strip-mode objects: the returned value validates / a validating input is accepted); c07_wellformed: the emitted document is well formed and contains no dangling reference; c07_history_equiv / _sound / _complete / _stable: the same holds for the document of every call of every sequence of ToJSONSchema calls (any option sets, any schemas converted before), and two calls on the same (options, schema) give the same document. Outside Representable each excluded class has a witness theorem and a replayed concrete instance (known findings).",
-   note="PARTIAL: holds on the Representable fragment only (see notes/C07.md for the excluded classes, each a demonstrated defect of the pinned tree). Lazy, discriminated unions, string formats, Default/Prefault, Map, Set, Struct, File, Pipe/Transform are not modelled; user regexes come from a five-entry table with hand-written meanings; registry IDs and reused:"ref" are compared after inlining the emitted $ref nodes (the raw document is what the independent validator judges). Instances: ASCII strings, numbers that are multiples of 1/4 below 2^51. Trusted: Lean kernel; the hand-written jsValid (cross-checked on every generated case against kaptinlin/jsonschema on the real document); the Go harness, schema-directed embedding and comparer. The model is validated on generated cases, not for all inputs.",
+   note="PARTIAL: holds on the Representable fragment only (see notes/C07.md for the excluded classes, each a demonstrated defect of the pinned tree). Lazy, discriminated unions, string formats, Default/Prefault, Map, Set, Struct, File, Pipe/Transform are not modelled; user regexes come from a five-entry table with hand-written meanings; registry IDs and reused:'ref' documents are compared after inlining the emitted $ref nodes (the raw document is what the independent validator judges). Instances: ASCII strings, numbers that are multiples of 1/4 below 2^51. Trusted: Lean kernel; the hand-written jsValid (cross-checked on every generated case against kaptinlin/jsonschema on the real document); the Go harness, schema-directed embedding and comparer. The model is validated on generated cases, not for all inputs.",
    design="DESIGN.md §5 C07")
 
 MODULES = ["Gozod.Proofs.C07"]
